@@ -94,11 +94,11 @@ func TestListUnsettled(t *testing.T) {
 		}
 		check(e, ref, ev)
 		if ref.IsFn && ref.Arity >= 0 && ref.Arity <= 3 {
-			pe := l.Probe(l.Build(term, BuildOpts{}), ref.Arity, 0)
+			pe := l.Probe(l.Build(term, BuildOpts{}), ref.Arity, 0, 0)
 			pref, pev := l.RunRef(pe)
 			check(pe, pref, pev)
 			if pref.IsFn && pref.Arity >= 0 && pref.Arity <= 3 {
-				pe2 := l.Probe(l.Probe(l.Build(term, BuildOpts{}), ref.Arity, 0), pref.Arity, 0)
+				pe2 := l.Probe(l.Probe(l.Build(term, BuildOpts{}), ref.Arity, 0, 0), pref.Arity, 0, 1)
 				pref2, pev2 := l.RunRef(pe2)
 				check(pe2, pref2, pev2)
 			}
